@@ -64,6 +64,9 @@ var otherObjects = []struct {
 func le32(v uint32) []byte { return []byte{byte(v), byte(v >> 8), byte(v >> 16), byte(v >> 24)} }
 
 var catalogue = []faultClass{
+	// a well-formed dh_gen_retry (right nonces, right new_nonce_hash2) once or twice, after which the server accepts whatever
+	// the client sends next: the statement lists the retry constructor among the replies that end the exchange
+	{"dhGen", "kind", "gen_retry-then-ok", 2},
 	{"resPQ", "kind", "other-object", len(otherObjects)}, {"dhParams", "kind", "other-object", len(otherObjects)}, {"dhGen", "kind", "other-object", len(otherObjects)},
 	{"resPQ", "nonce", "flip", 128}, {"resPQ", "nonce", "random", 0}, {"resPQ", "nonce", "other", 0}, {"resPQ", "nonce", "zero", 0},
 	{"resPQ", "fingerprints", "other-clients-key", 0},
@@ -195,6 +198,9 @@ func build(src scen.Source, keys []refsrv.RSAKeyJSON, fc faultClass, bit int) (*
 			sc.HSDCs = []int{re.DC}
 		}
 	}
+	if fc.Kind == "gen_retry-then-ok" {
+		sc.HS.RetryFirst = 1 + bit%2
+	}
 	if fc.Kind == "other-object" {
 		sc.Fault.Raw, sc.Fault.Text = otherObjects[bit%len(otherObjects)].Body, otherObjects[bit%len(otherObjects)].Name
 	}
@@ -260,7 +266,7 @@ func TestC07(t *testing.T) {
 			switch {
 			case fc.Bits == 0:
 				bits = []int{0}
-			case (run.Thorough() && fc.Bits <= 160) || fc.Kind == "other-object":
+			case (run.Thorough() && fc.Bits <= 160) || fc.Kind == "other-object" || fc.Kind == "gen_retry-then-ok":
 				for b := 0; b < fc.Bits; b++ {
 					bits = append(bits, b)
 				}
